@@ -241,7 +241,9 @@ void Interpolation::Set_Prefactor(double factor)
 
 double Interpolation::Interpolate(double x)
 {
-	int j		= Locate(x);
+	int j = Locate(x);
+	if(x == x_values[N - 1])   // the last abscissa is the right end of the last interval: return the tabulated value itself
+		return prefactor * function_values[N - 1];
 	double x_j	= x_values[j];
 	double inte = prefactor * (a[j] * pow((x - x_j), 3.0) + b[j] * pow((x - x_j), 2.0) + c[j] * (x - x_j) + d[j]);
 	return inte;
